@@ -5,8 +5,11 @@ package deflate
 
 import (
 	"compress/flate"
+	"errors"
 	"io"
 )
+
+var errWriterClosed = errors.New("flate: closed writer")
 
 type Writer struct {
 	err error
@@ -110,11 +113,18 @@ func (w *Writer) Flush() (err error) {
 }
 
 func (w *Writer) Close() (err error) {
+	if w.err == errWriterClosed {
+		return nil
+	}
 	if w.err != nil {
 		return w.err
 	}
 	if w.w != nil {
 		return w.w.Close()
 	}
-	return w.lc.Close()
+	err = w.lc.Close()
+	if err == nil {
+		w.err = errWriterClosed
+	}
+	return err
 }
